@@ -488,8 +488,10 @@ def orders(prog, rng, max_orders, exhaustive_upto=6):
     push(base)
     exhaustive = False
     if len(items0) <= exhaustive_upto:
-        ext = all_linear_extensions(items0, before0, max_orders + 1)
-        if len(ext) <= max_orders:
+        # <= 6 top-level declarations: all orders (at most 720) when the budget allows
+        cap = max_orders if max_orders < 24 else 720
+        ext = all_linear_extensions(items0, before0, cap + 1)
+        if len(ext) <= cap:
             exhaustive = True
             for o in ext:
                 push(o)
